@@ -90,7 +90,7 @@ def run(ctx):
     rep_path = os.path.join(ctx.out, "report.json")
     ctx.run_harness(os.path.join(bindir, "c13_encode"), ["run", cases, tables, ctx.out, rep_path],
                     timeout=3000, env={"VERIF_LONG": "4096" if ctx.quick else "65536",
-                         "VERIF_PASSES": "1" if (ctx.quick or rc is not None) else "6"})
+                         "VERIF_PASSES": "1" if (ctx.quick or rc is not None) else "3"})
     rep = json.load(open(rep_path))
     if not any(k.startswith("file") or "file" in k.split("|")[0] for k in rep["extra"].get("mismatch_categories", {})):
         shutil.rmtree(os.path.join(ctx.out, "files"), ignore_errors=True)   # large with 64 KiB strings
